@@ -294,6 +294,13 @@ func (e *Exec) obligeK(kind, ord string, tags []string, s *State, goal, desc str
 	e.obls = append(e.obls, Oblig{Key: key, Kind: kind, Tags: tags, Func: fname, Pre: append([]string{}, s.pc...), Goal: goal, Path: e.paths, Pos: e.posStr(token.NoPos), Desc: desc, Trace: append([]string{}, s.trace...)})
 }
 
+func (e *Exec) fname() string {
+	if e.fn != nil {
+		return e.fn.String()
+	}
+	return e.name
+}
+
 func (e *Exec) safety(kind string, s *State, goal string) {
 	if e.inSpecInline > 0 {
 		return
